@@ -15,12 +15,13 @@ log="work/seedlogs/$id.log"
 : > "$log"
 export CARGO_TARGET_DIR="$wt/target" CARGO_NET_OFFLINE=true
 cdir="$wt/$crate"
+if [ "$crate" = aldrin ]; then pkg=aldrin; else pkg="aldrin-${crate#aldrin-}"; fi
 mkdir -p "$cdir/tests"
 cp "$src/demo.rs" "$cdir/tests/seed_demo.rs"
 git -C "$wt" apply "$PWD/$dst/patch.diff" || { echo "patch does not apply in worktree" | tee -a "$log"; exit 2; }
-( cd "$wt" && cargo test --offline -p "aldrin-${crate#aldrin-}" --test seed_demo ${SEED_FEATURES:-} >> "$OLDPWD/$log" 2>&1 ); with=$?
+( cd "$wt" && cargo test --offline -p "$pkg" --test seed_demo ${SEED_FEATURES:-} >> "$OLDPWD/$log" 2>&1 ); with=$?
 git -C "$wt" checkout -- . 
-( cd "$wt" && cargo test --offline -p "aldrin-${crate#aldrin-}" --test seed_demo ${SEED_FEATURES:-} >> "$OLDPWD/$log" 2>&1 ); without=$?
+( cd "$wt" && cargo test --offline -p "$pkg" --test seed_demo ${SEED_FEATURES:-} >> "$OLDPWD/$log" 2>&1 ); without=$?
 rm -f "$cdir/tests/seed_demo.rs"
 rmdir "$cdir/tests" 2>/dev/null
 unset CARGO_TARGET_DIR
